@@ -67,7 +67,7 @@ static inline void vp_hist_merge(vp_hist_t* h, vp_log_t* logs, int nlogs) {
   h->ops = (vp_op_t*)malloc((n ? n : 1) * sizeof(vp_op_t));
   h->n = 0;
   for (i = 0; i < nlogs; ++i) {
-    memcpy(h->ops + h->n, logs[i].ops, logs[i].n * sizeof(vp_op_t));
+    if (logs[i].n) memcpy(h->ops + h->n, logs[i].ops, logs[i].n * sizeof(vp_op_t));
     h->n += logs[i].n;
   }
   qsort(h->ops, h->n, sizeof(vp_op_t), vp_cmp_inv);
